@@ -9,6 +9,7 @@ import (
 	"bytes"
 	"fmt"
 	"io"
+	"regexp"
 	"sort"
 	"strings"
 
@@ -582,6 +583,8 @@ func (ec *engineCase) sql(ordered bool) string {
 const ddlT = "CREATE TABLE t (id BIGINT, a BIGINT, b BIGINT, s VARCHAR(20), c VARCHAR(20) COLLATE utf8mb4_0900_ai_ci)"
 const ddlTi = "CREATE TABLE ti (id BIGINT PRIMARY KEY, a BIGINT, b BIGINT, s VARCHAR(20), c VARCHAR(20) COLLATE utf8mb4_0900_ai_ci, KEY ia (a), KEY iab (a,b), KEY isx (s), KEY ic (c))"
 
+const perRowInsertMax = 100
+
 func setup(rows []Row) *eng.S {
 	e := eng.New("db")
 	s := e.Session()
@@ -595,9 +598,42 @@ func setup(rows []Row) *eng.S {
 			}
 			vals = append(vals, "("+strings.Join(p, ",")+")")
 		}
-		s.MustExec("INSERT INTO t VALUES "+strings.Join(vals, ","), "INSERT INTO ti VALUES "+strings.Join(vals, ","))
+		s.MustExec("INSERT INTO t VALUES " + strings.Join(vals, ","))
+		if len(rows) <= perRowInsertMax {
+			// one statement per row: the index storage then receives the rows in insertion order (a multi-row INSERT
+			// applies its rows in the iteration order of a hash map), so ties in index order are determined
+			for _, v := range vals {
+				s.MustExec("INSERT INTO ti VALUES " + v)
+			}
+		} else {
+			s.MustExec("INSERT INTO ti VALUES " + strings.Join(vals, ","))
+		}
 	}
 	return s
+}
+
+var idxLineRe = regexp.MustCompile(`index: \[([^\]]*)\]`)
+
+// indexCols extracts the index columns named by an IndexedTableAccess plan as Coq idx_col terms.
+func indexCols(planText string) (string, bool) {
+	m := idxLineRe.FindStringSubmatch(planText)
+	if m == nil {
+		return "", false
+	}
+	cols := map[string]string{"id": "(0%nat, KInt)", "a": "(1%nat, KInt)", "b": "(2%nat, KInt)", "s": "(3%nat, KBin)", "c": "(4%nat, KCi)"}
+	var out []string
+	for _, f := range strings.Split(m[1], ",") {
+		name := strings.TrimSpace(f)
+		if i := strings.LastIndex(name, "."); i >= 0 {
+			name = name[i+1:]
+		}
+		t, ok := cols[name]
+		if !ok {
+			return "", false
+		}
+		out = append(out, t)
+	}
+	return lib.CoqList(out), true
 }
 
 func planKind(s *eng.S, q string) (kind string, text string) {
@@ -675,6 +711,17 @@ func runEngine(c *lib.Ctx, s *eng.S, ec engineCase) {
 	var id int
 	if ec.NoModel {
 		id = c.CaseNoModel(ec, key)
+	} else if idxTerm, ok := indexCols(planText); ok && kind == "index" && len(ec.Rows) <= perRowInsertMax {
+		// rows of the result in insertion order (the order in which the index storage received them)
+		insPos := map[string]int{}
+		for i, r := range ec.Rows {
+			insPos[r[0].String()] = i
+		}
+		ins := append([]Row(nil), bag...)
+		sort.SliceStable(ins, func(i, j int) bool { return insPos[ins[i][0].String()] < insPos[ins[j][0].String()] })
+		term := fmt.Sprintf("CIndex %s %s %s %s %d %s", coqKeys(ec.Keys), idxTerm, coqRows(ins), lim, m, coqRows(out))
+		id = c.Case(term, ec, key)
+		c.Count("index_plan_modelled")
 	} else {
 		term := fmt.Sprintf("CEngine %s %s %s %d %s %s", coqKeys(ec.Keys), coqRows(bag), lim, m, coqRows(out), lib.CoqBool(exact))
 		id = c.Case(term, ec, key)
